@@ -278,3 +278,206 @@ Proof.
   { apply (inv_sdone _ I). destruct (s_state (snd_ y)); simpl in Hss; try lia; auto. }
   pose proof (inv_data _ I) as Hd. rewrite Hb, Hfd, Hsb in Hd. simpl in Hd. rewrite app_nil_r in Hd. exact Hd.
 Qed.
+
+(* ---------- EOF is delivered only if the sender signalled it -------------------------------- *)
+
+Fixpoint eofs_t (l : list tok) : Z :=
+  match l with [] => 0 | TEof :: r => 1 + eofs_t r | _ :: r => eofs_t r end.
+Fixpoint eofs_p (l : list pkt) : Z :=
+  match l with [] => 0 | PEof :: r => 1 + eofs_p r | _ :: r => eofs_p r end.
+Definition pend_s (s : sender) : Z := match s_state s with SEofPending => 1 | _ => 0 end.
+Definition pend_r (r : receiver) : Z := match r_state r with REofPending => 1 | _ => 0 end.
+
+Lemma eofs_t_app a b : eofs_t (a ++ b) = eofs_t a + eofs_t b.
+Proof. induction a as [|t a IH]; simpl; [reflexivity|]. destruct t; lia. Qed.
+Lemma eofs_p_app a b : eofs_p (a ++ b) = eofs_p a + eofs_p b.
+Proof. induction a as [|t a IH]; simpl; [reflexivity|]. destruct t; lia. Qed.
+Lemma eofs_t_nonneg l : 0 <= eofs_t l.
+Proof. induction l as [|t l IH]; simpl; [lia|]. destruct t; lia. Qed.
+Lemma eofs_t_toks_of dt d : eofs_t (toks_of dt d) = 0.
+Proof. unfold toks_of. induction d; simpl; auto. Qed.
+Lemma eofs_t_in l : In TEof l -> 1 <= eofs_t l.
+Proof.
+  induction l as [|t l IH]; intros H; [destruct H|]. simpl.
+  destruct t; try (destruct H as [H|H]; [discriminate|specialize (IH H); lia]).
+  pose proof (eofs_t_nonneg l). lia.
+Qed.
+Lemma eofs_t_pos_in l : 1 <= eofs_t l -> In TEof l.
+Proof.
+  induction l as [|t l IH]; simpl; intros H; [lia|].
+  destruct t; try (right; apply IH; exact H). left. reflexivity.
+Qed.
+Lemma eofs_p_data l : Forall good_data l -> eofs_p l = 0.
+Proof. induction 1 as [|p l Hp _ IH]; simpl; [reflexivity|]. destruct p; simpl in *; try contradiction; exact IH. Qed.
+
+Lemma flush_send_eofs s s' out :
+  flush_send s = Some (s', out) -> 1 <= s_pkt s -> 0 <= s_win s -> nonempty_entries (s_buf s) ->
+  eofs_p out + pend_s s' = pend_s s.
+Proof.
+  unfold flush_send, pend_s. intros H Hp Hw Hne.
+  destruct (flush_loop _ _ _ _ _) as [[[buf win] o]|] eqn:E; [|discriminate].
+  apply flush_loop_spec in E; try assumption.
+  destruct E as (new & Ho & _ & _ & _ & _ & Hall & _). simpl in Ho. subst o.
+  assert (Hz : eofs_p new = 0).
+  { apply eofs_p_data. eapply Forall_impl; [|exact Hall]. intros p [Hg _]. exact Hg. }
+  destruct buf; destruct (s_state s); inversion H; subst; simpl; rewrite ?eofs_p_app, ?Hz; simpl; lia.
+Qed.
+
+Lemma finish_eofs r : eofs_t (r_out (r_finish r)) + pend_r (r_finish r) = eofs_t (r_out r) + pend_r r.
+Proof.
+  unfold r_finish, pend_r. destruct (r_buf r); [|reflexivity].
+  destruct (r_state r) eqn:Es; simpl; rewrite ?Es, ?eofs_t_app; simpl; lia.
+Qed.
+
+Lemma deliver_eofs r dt d :
+  eofs_t (r_out (fst (r_deliver r dt d))) = eofs_t (r_out r) /\ r_state (fst (r_deliver r dt d)) = r_state r.
+Proof.
+  rewrite deliver_out, eofs_t_app, eofs_t_toks_of. split; [lia|apply deliver_state].
+Qed.
+
+Lemma drain_eofs buf : forall r k bk r' rest bk',
+  r_drain r buf k bk = (r', rest, bk') -> eofs_t (r_out r') = eofs_t (r_out r) /\ r_state r' = r_state r.
+Proof.
+  induction buf as [|[dt d] b IH]; intros r k bk r' rest bk' H.
+  - simpl in H. inversion H; subst. split; reflexivity.
+  - simpl in H. destruct k as [[|j]|].
+    + inversion H; subst. split; reflexivity.
+    + destruct (r_deliver r dt d) as [r1 adj] eqn:E. destruct (deliver_eofs r dt d) as [A B]. rewrite E in A, B. simpl in A, B.
+      apply IH in H. destruct H as [C D]. split; congruence.
+    + destruct (r_deliver r dt d) as [r1 adj] eqn:E. destruct (deliver_eofs r dt d) as [A B]. rewrite E in A, B. simpl in A, B.
+      apply IH in H. destruct H as [C D]. split; congruence.
+Qed.
+
+Lemma flush_eofs r k r' adj :
+  r_flush r k = (r', adj) -> eofs_t (r_out r') + pend_r r' = eofs_t (r_out r) + pend_r r.
+Proof.
+  intros H. unfold r_flush in H. destruct (r_drain _ _ _ _) as [[r1 rest] bk] eqn:E.
+  apply drain_eofs in E. destruct E as [A B]. simpl in A, B. inversion H; subst.
+  rewrite finish_eofs. unfold pend_r. simpl. rewrite A, B. reflexivity.
+Qed.
+
+Definition eof_budget (y : sys) : Z :=
+  eofs_t (r_out (rcv_ y)) + pend_r (rcv_ y) + eofs_p (fwd y) + pend_s (snd_ y).
+
+Lemma step_budget strict y o : Inv y -> honest o ->
+  eofs_t (written y) - eof_budget y <= eofs_t (written (step strict y o)) - eof_budget (step strict y o).
+Proof.
+  intros I Ho. unfold step. rewrite (inv_nostuck _ I).
+  pose proof (inv_pkt _ I) as Hp. pose proof (inv_swin _ I) as Hw. pose proof (inv_ne _ I) as Hne.
+  destruct o as [dt d| | | |k| | |dt d]; try contradiction.
+  - (* write *)
+    destruct (s_state (snd_ y)) eqn:Est; try lia.
+    unfold upd_snd, s_write. rewrite Est. destruct d as [|x d']; [unfold eof_budget; simpl; rewrite !app_nil_r; lia|].
+    destruct (flush_send _) as [[s' out]|] eqn:E; [|unfold eof_budget; simpl; lia].
+    apply flush_send_eofs in E; simpl; auto.
+    + unfold eof_budget, pend_s in *. simpl in *. rewrite Est, eofs_p_app, eofs_t_app.
+      change (TB dt x :: toks_of dt d') with (toks_of dt (x :: d')). rewrite eofs_t_toks_of. lia.
+    + apply Forall_app. split; [exact Hne|constructor; [simpl; discriminate|constructor]].
+  - (* eof *)
+    destruct (s_state (snd_ y)) eqn:Est; try lia.
+    unfold upd_snd, s_eof. rewrite Est.
+    destruct (flush_send _) as [[s' out]|] eqn:E; [|unfold eof_budget; simpl; lia].
+    apply flush_send_eofs in E; simpl; auto.
+    unfold eof_budget, pend_s in *. simpl in *. rewrite Est, eofs_p_app, eofs_t_app. simpl. lia.
+  - (* close *)
+    assert (Hgen : forall s' out, flush_send (mkS (s_buf (snd_ y)) (s_win (snd_ y)) (s_pkt (snd_ y)) SClosePending) = Some (s', out) ->
+              eofs_p out + pend_s s' = 0).
+    { intros s' out E. apply flush_send_eofs in E; simpl; auto. }
+    assert (Hps : 0 <= pend_s (snd_ y)) by (unfold pend_s; destruct (s_state (snd_ y)); lia).
+    destruct (s_state (snd_ y)) eqn:Est; try lia; unfold upd_snd, s_close; rewrite Est;
+      (destruct (flush_send _) as [[s' out]|] eqn:E; [|unfold eof_budget; simpl; lia]);
+      specialize (Hgen _ _ eq_refl); unfold eof_budget in *; simpl in *;
+      rewrite eofs_p_app, eofs_t_app; simpl; lia.
+  - (* pause *)
+    unfold eof_budget, pend_r. simpl. lia.
+  - (* resume *)
+    assert (Hid : eof_budget (upd_rcv y (rcv_ y, []) (fwd y)) = eof_budget y /\
+                  written (upd_rcv y (rcv_ y, []) (fwd y)) = written y).
+    { unfold upd_rcv, eof_budget. simpl. split; reflexivity. }
+    assert (Hfl : eof_budget (upd_rcv y (r_flush (rcv_ y) k) (fwd y)) = eof_budget y /\
+                  written (upd_rcv y (r_flush (rcv_ y) k) (fwd y)) = written y).
+    { unfold upd_rcv. destruct (r_flush (rcv_ y) k) as [r' adj] eqn:E. apply flush_eofs in E.
+      unfold eof_budget. simpl. split; [lia|reflexivity]. }
+    unfold r_resume. destruct k as [[|n]|];
+      try (destruct Hid as [A B]; rewrite A, B; lia);
+      (destruct (r_paused (rcv_ y)); [destruct Hfl as [A B]|destruct Hid as [A B]]; rewrite A, B; lia).
+  - (* deliver forward *)
+    destruct (fwd y) as [|p rest] eqn:Ef; [lia|].
+    pose proof (inv_walk _ I) as Hwk. rewrite Ef in Hwk.
+    destruct p as [dt d| | |n]; simpl in Hwk.
+    + destruct (stage_r (r_state (rcv_ y))) eqn:Es; [|discriminate].
+      assert (Hopen : r_state (rcv_ y) = ROpen) by (destruct (r_state (rcv_ y)); simpl in Es; congruence).
+      unfold upd_rcv. destruct (r_data strict (rcv_ y) dt d) as [r' adj] eqn:E.
+      assert (Hr : eofs_t (r_out r') = eofs_t (r_out (rcv_ y)) /\ r_state r' = ROpen).
+      { unfold r_data in E. rewrite (inv_noerr _ I), Hopen in E.
+        destruct (zlen d >? _); [inversion E; subst; simpl; auto|].
+        destruct d as [|x d']; [inversion E; subst; auto|].
+        destruct (r_paused (rcv_ y)); [inversion E; subst; simpl; auto|].
+        destruct (deliver_eofs (rcv_ y) dt (x :: d')) as [A B]. rewrite E in A, B. simpl in A, B. split; congruence. }
+      destruct Hr as [A B]. unfold eof_budget, pend_r. simpl. rewrite Ef, A, B, Hopen. simpl. lia.
+    + destruct (stage_r (r_state (rcv_ y))) eqn:Es; [|discriminate].
+      assert (Hopen : r_state (rcv_ y) = ROpen) by (destruct (r_state (rcv_ y)); simpl in Es; congruence).
+      unfold upd_rcv. destruct (r_eof (rcv_ y)) as [r' adj] eqn:E.
+      assert (Hr : eofs_t (r_out r') + pend_r r' = eofs_t (r_out (rcv_ y)) + 1).
+      { unfold r_eof in E. rewrite (inv_noerr _ I), Hopen in E.
+        destruct (r_paused (rcv_ y)).
+        - inversion E; subst. rewrite finish_eofs. unfold pend_r. simpl. lia.
+        - apply flush_eofs in E. unfold pend_r in *. simpl in *. lia. }
+      unfold eof_budget at 2. simpl. unfold eof_budget. rewrite Ef. simpl.
+      assert (pend_r (rcv_ y) = 0) by (unfold pend_r; rewrite Hopen; reflexivity). lia.
+    + unfold upd_rcv. destruct (r_close (rcv_ y)) as [r' adj] eqn:E.
+      assert (Hr : eofs_t (r_out r') + pend_r r' <= eofs_t (r_out (rcv_ y)) + pend_r (rcv_ y)).
+      { assert (H0 : 0 <= pend_r (rcv_ y)) by (unfold pend_r; destruct (r_state (rcv_ y)); lia).
+        unfold r_close in E. rewrite (inv_noerr _ I) in E.
+        assert (Hgo : forall r1 a1,
+                  (if r_paused (rcv_ y)
+                   then (r_finish (mkR (r_buf (rcv_ y)) (r_win (rcv_ y)) (r_init (rcv_ y)) (r_paused (rcv_ y)) RClosePending false (r_out (rcv_ y))), [])
+                   else r_flush (mkR (r_buf (rcv_ y)) (r_win (rcv_ y)) (r_init (rcv_ y)) (r_paused (rcv_ y)) RClosePending false (r_out (rcv_ y))) None) = (r1, a1) ->
+                  eofs_t (r_out r1) + pend_r r1 = eofs_t (r_out (rcv_ y))).
+        { intros r1 a1 G. destruct (r_paused (rcv_ y)).
+          - inversion G; subst. rewrite finish_eofs. unfold pend_r. simpl. lia.
+          - apply flush_eofs in G. unfold pend_r in *. simpl in *. lia. }
+        destruct (r_state (rcv_ y)) eqn:Es;
+          try (specialize (Hgo _ _ E); lia);
+          (inversion E; subst; unfold pend_r, r_fail; simpl; rewrite Es; lia). }
+      unfold eof_budget. simpl. rewrite Ef. simpl. lia.
+    + unfold eof_budget. simpl. rewrite Ef. simpl. lia.
+  - (* deliver back *)
+    destruct (back y) as [|p rest] eqn:Eb; [lia|].
+    destruct p as [dt d| | |n]; try (unfold eof_budget; simpl; lia).
+    unfold s_adjust. destruct (flush_send _) as [[s' out]|] eqn:E; [|unfold eof_budget; simpl; lia].
+    apply flush_send_eofs in E; simpl; auto.
+    + unfold eof_budget, pend_s in *. simpl in *. rewrite eofs_p_app. lia.
+    + pose proof (inv_back_pos _ I) as Hbp. rewrite Eb in Hbp. inversion Hbp; subst. simpl in *. lia.
+Qed.
+
+Lemma run_budget strict ops : forall y, Inv y -> Forall honest ops ->
+  eofs_t (written y) - eof_budget y <=
+  eofs_t (written (fold_left (step strict) ops y)) - eof_budget (fold_left (step strict) ops y).
+Proof.
+  induction ops as [|o ops IH]; intros y I H; simpl; [lia|].
+  inversion H; subst.
+  pose proof (step_budget strict y o I H2).
+  pose proof (IH _ (step_inv strict y o I H2) H3). lia.
+Qed.
+
+(* EOF reaches the receiving session only if the sending application signalled it *)
+Theorem eof_only_if_signalled strict window pktsize ops :
+  1 <= window -> 1 <= pktsize -> Forall honest ops ->
+  let y := run strict window pktsize ops in
+  In TEof (r_out (rcv_ y)) -> In TEof (written y).
+Proof.
+  intros Hw Hp H y Hin.
+  pose proof (run_budget strict ops (init_sys window pktsize) (init_inv _ _ Hw Hp) H) as Hb.
+  fold (run strict window pktsize ops) in Hb. fold y in Hb.
+  change (eofs_t (written (init_sys window pktsize))) with 0 in Hb.
+  change (eof_budget (init_sys window pktsize)) with 0 in Hb.
+  apply eofs_t_pos_in.
+  pose proof (eofs_t_in _ Hin).
+  unfold eof_budget in Hb.
+  assert (0 <= pend_r (rcv_ y)) by (unfold pend_r; destruct (r_state (rcv_ y)); lia).
+  assert (0 <= pend_s (snd_ y)) by (unfold pend_s; destruct (s_state (snd_ y)); lia).
+  assert (0 <= eofs_p (fwd y)).
+  { clear. induction (fwd y) as [|p l IH]; simpl; [lia|]. destruct p; lia. }
+  lia.
+Qed.
